@@ -47,6 +47,8 @@ FSTRING_PROGRAMS = [
     ("dict-union-free", "d = {**{'a': 1}, 'b': 2}\nprint(sorted(d.items()))\n"),
     ("starred-index", "t = (1, 2)\nd = {(1, 2): 'x'}\nprint(d[t[0], t[1]])\n"),
     ("return-starred", "def f(a):\n    return (1, *a)\nprint(f([2, 3]))\n"),
+    ("decorated-class", "def deco(c):\n    c.tag = 1\n    return c\ndef deco2(n):\n    return lambda c: c\n@deco\n@deco2(2)\nclass K:\n    pass\nprint(K.tag)\n"),
+    ("decorated-function-and-method", "def d(f):\n    return f\n@d\ndef g(a, *, k=1):\n    return a + k\nclass K:\n    @staticmethod\n    @d\n    def s(x):\n        return x\nprint(g(1), K.s(2))\n"),
     ("super-in-loop", "class B:\n    def m(self):\n        return 1\nclass C(B):\n    def m(self):\n        t = 0\n        for i in range(2):\n            t += super().m()\n        while t < 5:\n            t += super().m()\n        return t\nprint(C().m())\n"),
     ("super-outside-loop", "class B:\n    def m(self):\n        return 1\nclass C(B):\n    def m(self):\n        s = super()\n        t = 0\n        for i in range(2):\n            t += s.m() + super(C, self).m()\n        return t\nprint(C().m())\n"),
     ("walrus-in-displays", "print({(a := 5), 1} == {1, 5}, [(b := 2), b], ((c := 3), c), {(d := 4): d}, a)\n"),
